@@ -132,6 +132,7 @@ type vFSM struct {
 	reads   []int    // len(updates) at each Read
 	snaps   int
 	restored int
+	snapGate chan struct{} // when set, Snapshot() waits for it (cooperative harnesses: a slow snapshot)
 }
 
 func (f *vFSM) Update(cmd []byte) interface{} {
@@ -142,7 +143,13 @@ func (f *vFSM) Read(cmd interface{}) interface{} {
 	f.reads = append(f.reads, len(f.updates))
 	return len(f.updates)
 }
-func (f *vFSM) Snapshot() (FSMState, error) { f.snaps++; return vFSMState{n: len(f.updates)}, nil }
+func (f *vFSM) Snapshot() (FSMState, error) {
+	if f.snapGate != nil {
+		<-f.snapGate
+	}
+	f.snaps++
+	return vFSMState{n: len(f.updates)}, nil
+}
 func (f *vFSM) Restore(r io.Reader) error    { f.restored++; f.updates = nil; return nil }
 
 type vFSMState struct{ n int }
